@@ -136,6 +136,17 @@ theorem routing_exact (w : World) (j : Nat) (s : Trxd.TxMsg) (src : Trx) (fnI tn
   forwardMsg_exact w j s src fnI tn bits w' out hj hfn htn hb hbits hok hwf hd f0 f1 n0 n1 hradio h
     k tk hk
 
+/-- the `.ok` hypothesis of the theorems above is no restriction for well-formed simulation
+parameters: with FAKE_DROP parameters and randomisation thresholds as the TRXC handlers can set
+them (`DropWF`, `ThrNonneg`) and a message that carries an attenuation and burst octets, the
+forwarding step returns normally — no exception reaches the clock thread -/
+theorem forward_returns (w : World) (j : Nat) (s : Trxd.TxMsg) (src : Trx) (fnI pwr : Int)
+    (bits : List Nat) (hj : w.trxs[j]? = some src) (hfn : s.fn = some fnI) (hp : s.pwr = some pwr)
+    (hb : s.burst = some bits) (hbits : ∀ b ∈ bits, b < 256) (hok : FreqOk w fnI.toNat)
+    (hwf : ∀ t ∈ w.trxs, DropWF t) (hthr : ∀ t ∈ w.trxs, ThrNonneg t) :
+    ∃ w' out, forwardMsg w j s = .ok (w', out) :=
+  forwardMsg_total w j s src fnI pwr bits hj hfn hp hb hbits hok hwf hthr
+
 /-- nothing is delivered back to the sender -/
 theorem nothing_to_sender (w : World) (j : Nat) (s : Trxd.TxMsg) (src : Trx) (fnI : Int)
     (bits : List Nat) (w' : World) (out : List Dgram)
